@@ -36,8 +36,10 @@ fn check_sparse(ctx: &mut Ctx, route: &str, sv: Result<SparseVector, String>, m:
         Ok(sv) => {
             check_bv("sparse", &sv, m, args, opts, ctx);
             ctx.checks += 1;
-            if sv.is_multiset() {
-                ctx.violation("sparse.is_multiset", format!("is_multiset() = true for distinct positions via {} on {}", route, m.describe()));
+            match guard(|| sv.is_multiset()) {
+                Ok(false) => {},
+                Ok(true) => ctx.violation("sparse.is_multiset", format!("is_multiset() = true for distinct positions via {} on {}", route, m.describe())),
+                Err(p) => ctx.violation("sparse.is_multiset!panic", format!("is_multiset() panicked ({}) via {} on {}", p, route, m.describe())),
             }
             match walk::sparse_params(&ser(&sv)) {
                 Ok((n, ones, w)) => {
